@@ -34,6 +34,7 @@ type c09Case struct {
 	State string `json:"state,omitempty"`
 	Seed  uint64 `json:"seed,omitempty"`
 	Idle  bool   `json:"idle,omitempty"`
+	J     int64  `json:"j,omitempty"`
 }
 type c09Viol struct {
 	Case   c09Case      `json:"case"`
